@@ -8,7 +8,8 @@ spec = {"version": [item..],     extra items appended to the default ~Version (V
         "params":  [item..],
         "curves":  [[mnemonic, unit, value, descr, [data..]]..],   first curve = index
         "other":   text,
-        "well_edit": {mnemonic: [unit, value, descr]}  optional edits of default ~Well items}
+        "well_edit": {mnemonic: [unit, value, descr]}  optional edits of default ~Well items,
+        "version_edit": {mnemonic: [unit, value, descr]}  optional edits of default ~Version items}
 item = [mnemonic, unit, value, descr];  value = ["i", n] | ["f", hex] | ["s", text] | ["none"] | ["npi", n] | ["npf", hex]
 """
 import numpy as np
@@ -19,6 +20,24 @@ PUNCT = "-_/()[]%#'\"*+=<>!?&;,@"
 NONASCII = "éÖмΩ"          # inside the alphabet of the model's upper/lower
 SECTIONS = ("Version", "Well", "Curves", "Parameter")
 ORDER12 = ("STRT", "STOP", "STEP", "NULL", "strt", "stop", "step", "null")
+
+
+# ------------------------------------------------------------------ driver I/O
+def ask(model, reqs, limit=16000):
+    """model.ask in groups whose request text stays well below the pipe buffer (requests and answers of the
+    header ops are several KB each; writing a large batch before reading any answer can dead-lock on the pipes)"""
+    import json
+    out, group, size = [], [], 0
+    for r in reqs:
+        n = len(json.dumps(r, ensure_ascii=True)) + 1
+        if group and size + n > limit:
+            out.extend(model.ask(group, chunk=len(group)))
+            group, size = [], 0
+        group.append(r)
+        size += n
+    if group:
+        out.extend(model.ask(group, chunk=len(group)))
+    return out
 
 
 # ------------------------------------------------------------------ values
@@ -81,6 +100,9 @@ def build(spec):
     las = lasio.LASFile()
     for k, (u, v, d) in (spec.get("well_edit") or {}).items():
         it = las.well[k]
+        it.unit, it.value, it.descr = u, dec(v), d
+    for k, (u, v, d) in (spec.get("version_edit") or {}).items():
+        it = las.version[k]
         it.unit, it.value, it.descr = u, dec(v), d
     for m, u, v, d in spec.get("version", []):
         las.version.append(HeaderItem(m, u, dec(v), d))
@@ -253,6 +275,15 @@ def gen_items(rng, sec, n=None):
     if n >= 2 and rng.random() < 0.5:            # duplicate mnemonic
         a, b = rng.sample(range(n), 2)
         items[b][0] = items[a][0]
+    if n and rng.random() < 0.2:                  # blank mnemonic on a line with no further period
+        k = rng.randrange(n)
+        nodot = lambda t: t.replace(".", "")
+        v = items[k][2]
+        if v[0] in ("f", "npf"):
+            v = ["i", 3]
+        elif v[0] == "s":
+            v = ["s", nodot(v[1]).strip()]
+        items[k] = ["", nodot(items[k][1]) if unit_ok(nodot(items[k][1])) else "M", v, nodot(items[k][3]).strip()]
     if n and rng.random() < 0.7:                  # one item is strictly the widest in one of the three columns
         k = rng.randrange(n)
         col = rng.choice(["mnemonic", "unit", "value", "descr"])
